@@ -44,10 +44,92 @@ def eval_inv(ex, st, inv, extra):
     return callcontract.clause(ex, st, ex.fr.contract, inv, extra)
 
 
-def havoc_for_loop(ex, st, body_stmts, extra_names=()):
+def eval_ghost_expr(ex, st, node, extra):
+    """evaluate a ghost init/step expression (total mode, contract scope)"""
+    from .engine import Exec
+    sub = Exec(ex.eng, ex.fr, total=True, modname=None, specmod=ex.fr.contract.specmod)
+    st.frames.append(dict(extra))
+    try:
+        v = sub.one(st, node)
+    finally:
+        st.frames.pop()
+    return v
+
+
+def loop_ghosts(ex, key):
+    c = ex.fr.contract
+    if c is None or key is None:
+        return {}
+    g = c.loop_ghosts.get(key)
+    if g is None and isinstance(key, str) and key.isdigit():
+        g = c.loop_ghosts.get(int(key))
+    return g or {}
+
+
+def ghost_frame(st):
+    """ghost loop variables live in the bottom frame so that every inlined frame sees them"""
+    return st.frames[0]
+
+
+PURE_BUILTINS = {"len", "isinstance", "ord", "chr", "bool", "int", "float", "str", "repr", "bytes", "list",
+                 "tuple", "set", "dict", "all", "any", "abs", "min", "max", "range", "enumerate", "type",
+                 "getattr"}
+PURE_METHODS = {"get", "items", "keys", "values", "index", "encode", "decode", "split", "rsplit", "join",
+                "startswith", "endswith", "intersection", "hex", "bit_length", "to_bytes", "copy",
+                "append", "extend", "add", "pop", "insert"}   # mutators touch locals, not the heap
+
+
+def may_modify_heap(ex, nodes):
+    """conservative syntactic test: can executing these AST nodes change a heap object?"""
+    for root in nodes:
+        for n in ast.walk(root):
+            if isinstance(n, (ast.Yield, ast.YieldFrom)):
+                return True
+            if isinstance(n, ast.Attribute) and isinstance(n.ctx, (ast.Store, ast.Del)):
+                return True
+            if isinstance(n, ast.Subscript) and isinstance(n.ctx, (ast.Store, ast.Del)):
+                r = n.value
+                while isinstance(r, ast.Subscript):
+                    r = r.value
+                if isinstance(r, ast.Attribute):
+                    return True
+            if isinstance(n, ast.Call):
+                f = n.func
+                if isinstance(f, ast.Name):
+                    if f.id in PURE_BUILTINS:
+                        continue
+                    try:
+                        v = ex.eng.resolve_global(ex, f.id)
+                    except Exception:
+                        return True
+                    if isinstance(v, Const) and v.kind == "func":
+                        cs = ex.eng.contracts.by_func.get((v.val.module, v.val.qualname))
+                        if cs and all(not c.modifies for c in cs):
+                            continue
+                    if isinstance(v, Const) and v.kind in ("spec", "specident", "pyfn", "builtin", "type"):
+                        continue
+                    return True
+                if isinstance(f, ast.Attribute):
+                    if f.attr in PURE_METHODS:
+                        r = f.value
+                        while isinstance(r, (ast.Subscript, ast.Attribute)):
+                            if isinstance(r, ast.Attribute):
+                                break
+                            r = r.value
+                        if isinstance(r, ast.Attribute) and f.attr in ("append", "extend", "add", "pop", "insert"):
+                            return True     # mutating a container stored in an object field
+                        continue
+                    return True
+                return True
+    return False
+
+
+def havoc_for_loop(ex, st, body_stmts, extra_names=(), heap=True):
     """havoc locals assigned in the loop body and every heap object the function may
     modify (over-approximation; the invariant must re-establish what is needed)."""
     names = assigned_names(body_stmts) | set(extra_names)
+    if ex.fr.yield_handler is not None and any(isinstance(n, ast.Yield) for b in body_stmts for n in ast.walk(b)):
+        names |= set(getattr(ex.fr, "consumer_assigned", ()))
     for nm in names:
         for f in reversed(st.frames):
             if nm in f:
@@ -59,6 +141,8 @@ def havoc_for_loop(ex, st, body_stmts, extra_names=()):
                         st.assume(kc)
                     f[nm] = nv
                 break
+    if not heap:
+        return
     # heap: everything that is not declared read-only
     from . import callcontract
     ro = ex.eng.readonly_objects(ex, st)
@@ -120,8 +204,8 @@ def for_(ex, st, s):
                 if r is not None:
                     yield st2, (RAISE, r)
                     continue
-                seq = z3.If(Py.is_list(t), Py.items(t), z3.If(Py.is_tuple(t), Py.titems(t),
-                      z3.If(Py.is_dict(t), Py.keys(t), Py.elems(t))))
+                from .calls import py_items
+                seq = py_items(t)
                 yield from for_core(ex, st2, s, "seq", seq)
             continue
         yield from for_core(ex, st1, s, kind, payload)
@@ -212,7 +296,7 @@ def for_core(ex, st, s, kind, payload):
         yield from unrolled_host(ex, st, s, payload)
         return
     key, inv = find_invariant(ex, s)
-    n = z3.simplify(length(ex, st, kind, payload))
+    n = S.simp(length(ex, st, kind, payload))
     conc = arith.is_conc(n)
     if inv is None:
         if conc is not None and conc <= 300:
@@ -220,13 +304,20 @@ def for_core(ex, st, s, kind, payload):
             return
         raise _U(f"loop {key} at line {s.lineno} has no invariant")
     seqv = seq_ghost(ex, st, kind, payload)
+    ghosts = loop_ghosts(ex, key)
     # ---- init
     extra = {"_i": S.mk_int(0), "_seq": seqv, "_n": V("int", n)}
+    for g, (ginit, gstep) in ghosts.items():
+        ghost_frame(st)[g] = eval_ghost_expr(ex, st, ginit, extra)
     g0 = eval_inv(ex, st, inv, extra)
     eng.obligation(ex, st, f"loop{key}.init", g0, "loop-init", s)
     # ---- arbitrary iteration
     body_st = st.fork()
-    havoc_for_loop(ex, body_st, s.body + s.orelse, _names(s.target))
+    havoc_for_loop(ex, body_st, s.body + s.orelse, _names(s.target),
+                   heap=may_modify_heap(ex, s.body + s.orelse))
+    for g in ghosts:
+        old_g = ghost_frame(body_st)[g]
+        ghost_frame(body_st)[g] = S.fresh(g, old_g.ty) if isinstance(old_g, V) else old_g
     exit_st = body_st.fork()
     i = S.fresh("_i", "int")
     body_st.assume(z3.And(i.t >= 0, i.t < n))
@@ -234,7 +325,8 @@ def for_core(ex, st, s, kind, payload):
     body_st.assume(eval_inv(ex, body_st, inv, extra_i))
     results = []
     el = element(ex, body_st, kind, payload, i.t)
-    body_st.vars["__loop_i__" + str(key)] = i
+    saved_i = ghost_frame(body_st).get("_i")
+    ghost_frame(body_st)["_i"] = i
     for st1, r in ex.store(body_st, s.target, el):
         if r is not None:
             results.append((st1, (RAISE, r)))
@@ -242,11 +334,15 @@ def for_core(ex, st, s, kind, payload):
         for st2, o in ex.block(st1, s.body):
             if o[0] in (NEXT, CONT):
                 extra_n = {"_i": V("int", i.t + 1), "_seq": seqv, "_n": V("int", n)}
+                for g, (ginit, gstep) in ghosts.items():
+                    ghost_frame(st2)[g] = eval_ghost_expr(ex, st2, gstep, extra_i)
                 g = eval_inv(ex, st2, inv, extra_n)
                 eng.obligation(ex, st2, f"loop{key}.preserve", g, "loop-preserve", s)
             elif o[0] == BRK:
+                _restore_i(st2, saved_i)
                 results.append((st2, (NEXT, None)))
             else:
+                _restore_i(st2, saved_i)
                 results.append((st2, o))
     # ---- after the loop
     iN = S.fresh("_i", "int")
@@ -258,6 +354,13 @@ def for_core(ex, st, s, kind, payload):
         else:
             results.append((exit_st, (NEXT, None)))
     yield from results
+
+
+def _restore_i(st, saved):
+    if saved is None:
+        ghost_frame(st).pop("_i", None)
+    else:
+        ghost_frame(st)["_i"] = saved
 
 
 def _names(tg):
@@ -276,7 +379,7 @@ def unrolled(ex, st, s, kind, payload, count):
         for st1, o in states:
             el = element(ex, st1, kind, payload, z3.IntVal(k))
             if isinstance(el, V):
-                el = V(el.ty, z3.simplify(el.t))
+                el = V(el.ty, S.simp(el.t))
             for st2, r in ex.store(st1, s.target, el):
                 if r is not None:
                     done.append((st2, (RAISE, r)))
@@ -328,10 +431,16 @@ def while_(ex, st, s):
     key, inv = find_invariant(ex, s)
     if inv is None:
         raise _U(f"while loop {key} at line {s.lineno} has no invariant")
+    ghosts = loop_ghosts(ex, key)
+    for g, (ginit, gstep) in ghosts.items():
+        ghost_frame(st)[g] = eval_ghost_expr(ex, st, ginit, {})
     g0 = eval_inv(ex, st, inv, {})
     eng.obligation(ex, st, f"loop{key}.init", g0, "loop-init", s)
     body_st = st.fork()
-    havoc_for_loop(ex, body_st, s.body + s.orelse)
+    havoc_for_loop(ex, body_st, s.body + s.orelse, heap=may_modify_heap(ex, s.body + s.orelse + [s.test]))
+    for g in ghosts:
+        old_g = ghost_frame(body_st)[g]
+        ghost_frame(body_st)[g] = S.fresh(g, old_g.ty) if isinstance(old_g, V) else old_g
     body_st.assume(eval_inv(ex, body_st, inv, {}))
     results = []
     for st1, c in ex.expr(body_st, s.test):
@@ -342,6 +451,8 @@ def while_(ex, st, s):
         if a is not None:
             for st2, o in ex.block(a, s.body):
                 if o[0] in (NEXT, CONT):
+                    for g, (ginit, gstep) in ghosts.items():
+                        ghost_frame(st2)[g] = eval_ghost_expr(ex, st2, gstep, {})
                     g = eval_inv(ex, st2, inv, {})
                     eng.obligation(ex, st2, f"loop{key}.preserve", g, "loop-preserve", s)
                 elif o[0] == BRK:
@@ -394,6 +505,7 @@ def inline_generator(ex, st, s, gi):
         return outs
 
     fr.yield_handler = handler
+    fr.consumer_assigned = assigned_names(s.body) | set(_names(s.target))
     fr.loop_prefix = saved[1] + fi.qualname.split(".")[-1] + "."
     fr.loop_index = {id(n): i for i, n in enumerate(loops_in(fi.node))}
     sub = Exec(eng, fr, total=False, modname=fi.module)
